@@ -1,5 +1,5 @@
 #!/usr/bin/env python3
-"""usage: tools/mk_seeded_meta.py r2|r3|r4|r5
+"""usage: tools/mk_seeded_meta.py r2|r3|r4|r5|r6
 Writes seeded/<id>-<round>m<n>/meta.json for the seeded changes of that round from the sub-agents' notes
 (heading = the change, "Needs" paragraph = what it takes to manifest) and the evaluation results."""
 import json, os, re, sys
@@ -14,6 +14,8 @@ C15-r3m1 C15-r3m3 C16-r3m3 C17-r3m1
 C02-r4m3 C04-r4m3 C05-r4m1 C05-r4m2 C05-r4m3 C06-r4m2 C07-r4m3 C09-r4m1 C09-r4m2 C09-r4m3 C10-r4m1 C10-r4m2 C12-r4m2 C14-r4m1
 C15-r4m2 C15-r4m3 C16-r4m3 C17-r4m2 C18-r4m1
 C03-r5m1 C06-r5m1 C06-r5m2 C07-r5m3 C08-r5m3 C09-r5m1 C09-r5m2 C11-r5m2 C13-r5m2 C14-r5m2 C14-r5m3 C15-r5m1 C15-r5m3 C16-r5m1 C18-r5m1
+C01-r6m3 C04-r6m2 C04-r6m3 C05-r6m1 C05-r6m3 C07-r6m1 C07-r6m3 C08-r6m2 C08-r6m3 C09-r6m3 C12-r6m1 C14-r6m2 C14-r6m3 C15-r6m1 C15-r6m3 C16-r6m1 C16-r6m2 C16-r6m3
+C17-r6m1 C17-r6m2 C18-r6m1 C18-r6m2 C18-r6m3
 '''.split())
 # not evaluated before the workloads were extended (evaluation harness interrupted): first-pass status unknown
 FIRST_PASS_UNKNOWN = set('C10-r3m1 C10-r3m2 C10-r3m3 C12-r3m1 C12-r3m2'.split())
